@@ -34,8 +34,24 @@ Ltac closed_arith :=
          | |- context [Z.eqb (Zpos ?a) Z0] => change (Z.eqb (Zpos a) Z0) with false
          | |- context [Z.eqb Z0 Z0] => change (Z.eqb Z0 Z0) with true
          end.
+(* c & x is written x & c; a literal mask with several bits is split into its bits *)
+Ltac constants_right :=
+  repeat match goal with
+         | |- context [Z.land (Zpos ?a) ?x] =>
+           lazymatch x with Zpos _ => fail | Z0 => fail | Zneg _ => fail | _ => rewrite (Z.land_comm (Zpos a) x) end
+         end.
+Ltac split_masks :=
+  repeat match goal with
+         | |- context [Z.eqb (Z.land ?x (Zpos ?c)) 0%Z] =>
+           let c' := eval vm_compute in (Z.land (Zpos c) (Z.pred (Zpos c))) in
+           lazymatch c' with
+           | Z0 => fail
+           | _ => let b := eval vm_compute in (Z.sub (Zpos c) c') in
+                  change (Z.land x (Zpos c)) with (Z.land x (Z.lor b c')); rewrite land_lor_eqb0
+           end
+         end.
 Ltac norm :=
-  closed_arith; repeat (rewrite land_lor_eqb0 || rewrite land_lor_l_eqb0); closed_arith;
+  closed_arith; constants_right; repeat (rewrite land_lor_eqb0 || rewrite land_lor_l_eqb0); split_masks; closed_arith;
   cbn [negb andb orb]; rewrite ?andb_true_r, ?andb_false_r.
 (* everything except the bit operations on an unknown word is computed away *)
 Ltac expose :=
